@@ -39,7 +39,7 @@ META = {
 # ---- L1 tables -------------------------------------------------------------
 def py_atoms(tier):
     if tier == "quick":
-        pv, pfv = ["3", "3.8", "3.10", "3.8.1", "v3.8.1", "3.8rc1"], ["3.8", "3.8.2", "3.10", "3.9a1"]
+        pv, pfv = ["3", "3.8", "3.10", "3.8.1", "v3.8.1", "3.8rc1", "3.8.1rc1"], ["3.8", "3.8.2", "3.10", "3.9a1"]
         lists = ["3.8, 3.10", "2.7,3.10"]
         wild3 = ["3.8.0", "3.8.1"]
     else:
